@@ -5,6 +5,7 @@
 package proxy
 
 import (
+	"bytes"
 	"context"
 	"fmt"
 	"net"
@@ -12,6 +13,12 @@ import (
 	"strconv"
 	"strings"
 	"time"
+
+	"github.com/datastax/cql-proxy/codecs"
+	"github.com/datastax/go-cassandra-native-protocol/frame"
+	"github.com/datastax/go-cassandra-native-protocol/message"
+	"github.com/datastax/go-cassandra-native-protocol/primitive"
+	"go.uber.org/zap"
 )
 
 // verifReplayParseProtocolVersion: every documented spelling selects the version it names.
@@ -72,4 +79,56 @@ func verifReplayRunRefusesBadConfig() error {
 	case <-time.After(4 * time.Second):
 		return fmt.Errorf("Run neither refused the invalid YAML configuration nor returned")
 	}
+}
+
+// verifReplayOverrideFraming: a non-SELECT QUERY whose consistency is in the unsupported list, sent
+// with the given header flags, goes through the override path; the frame the backend would receive
+// must declare the body length it actually has.
+func verifReplayOverrideFraming(flags primitive.HeaderFlag) error {
+	// the other flags need matching body parts; tracing needs none on a request. The counterexample's
+	// flags are tried first, then the traced variant.
+	if err := verifReplayOverrideFramingWith(flags & primitive.HeaderFlagTracing); err != nil {
+		return err
+	}
+	return verifReplayOverrideFramingWith(primitive.HeaderFlagTracing)
+}
+
+func verifReplayOverrideFramingWith(flags primitive.HeaderFlag) error {
+	cl := &client{codec: codecs.CustomRawCodec, proxy: &Proxy{logger: zap.NewNop(), config: Config{
+		UnsupportedWriteConsistencies:       []clWrapper{{primitive.ConsistencyLevelSerial}},
+		UnsupportedWriteConsistencyOverride: clWrapper{primitive.ConsistencyLevelLocalQuorum},
+	}}}
+	orig := frame.NewFrame(primitive.ProtocolVersion4, 1, &message.Query{Query: "INSERT INTO ks.t (k) VALUES (1)",
+		Options: &message.QueryOptions{Consistency: primitive.ConsistencyLevelSerial}})
+	orig.Header.Flags = flags
+	raw, err := codecs.DefaultRawCodec.ConvertToRawFrame(orig)
+	if err != nil {
+		return nil
+	}
+	body, err := cl.codec.DecodeBody(raw.Header, codecs.NewFrameBodyReader(raw.Body))
+	if err != nil {
+		return nil
+	}
+	frm := cl.maybeOverrideUnsupportedWriteConsistency(false, raw, body)
+	var out bytes.Buffer
+	switch f := frm.(type) {
+	case *frame.Frame:
+		if err := cl.codec.EncodeFrame(f, &out); err != nil {
+			return fmt.Errorf("encoding the overridden frame failed: %v", err)
+		}
+	case *frame.RawFrame:
+		if f == raw {
+			return fmt.Errorf("a write with an unsupported consistency was not overridden")
+		}
+		if err := cl.codec.EncodeRawFrame(f, &out); err != nil {
+			return fmt.Errorf("encoding the overridden raw frame failed: %v", err)
+		}
+	}
+	wire := out.Bytes()
+	declared := int(wire[5])<<24 | int(wire[6])<<16 | int(wire[7])<<8 | int(wire[8])
+	actual := len(wire) - 9
+	if declared != actual {
+		return fmt.Errorf("overridden QUERY with header flags %v is mis-framed: header declares %d body bytes, %d follow", flags, declared, actual)
+	}
+	return nil
 }
